@@ -176,6 +176,15 @@ func FamilyName(thorough bool) []*Conv {
 			ConvLines: []string{"skipCopySameType"}, Spec: &Spec{SkipCopy: true},
 		})
 	}
+	// a variables block whose code is emitted into another package: calls between the declared variables stay
+	// qualified with the declaring package
+	out = append(out, &Conv{
+		ID: "name/variables_emitted_elsewhere/variable", Family: "name", Format: "variable", Solo: true,
+		Params: "source []PFXIn", Results: "[]PFXOut",
+		ConvLines:    []string{"output:file ./gen/conv.go", "output:package corpus/GRP/gen"},
+		ExtraMethods: "\tPFXItem func(source PFXIn) PFXOut\n",
+		Decls:        "type PFXIn struct{ A int }\ntype PFXOut struct{ A int }\n", Spec: &Spec{},
+	})
 	// custom struct name / several converters in one file are exercised by every group of the other families
 	out = append(out, &Conv{
 		ID: "name/custom_struct_name/struct", Family: "name", Format: "struct",
